@@ -22,9 +22,9 @@ Qed.
 (* which rule a value gets when it stands in function position (the argument `true`: any callable is accepted) *)
 Theorem callable_kinds rec ip h w sp v : runG rec value ip h w (e <- proc_functional sp (inr v) true ;; Ret (VNil)) =
   match v with
-  | VBool _ | VDict _ | VList _ | VStr _ | VBytes _ | VErr _ _ | VFun _ => DoneG h w (inl VNil) 0
+  | VBool _ | VDict _ | VList _ | VStr _ | VBytes _ | VErr _ _ | VFun _ | VComplex _ _ => DoneG h w (inl VNil) 0
   | _ => DoneG h w (inr (mkerr c_type sp)) 0 end.
-Proof. destruct v as [z|fl|b|s|s|l|dc|f|i|s l| |u]; reflexivity. Qed.
+Proof. destruct v as [z|fl|b|s|s|l|dc|f|i|s l| |u|cr ci]; reflexivity. Qed.
 Theorem kind_of_boolean rec ip h w sp b : runG rec evalr ip h w (proc_functional sp (inr (VBool b)) true) = DoneG h w (inl (EBool b)) 0. Proof. reflexivity. Qed.
 Theorem kind_of_dict rec ip h w sp d : runG rec evalr ip h w (proc_functional sp (inr (VDict d)) true) = DoneG h w (inl (EDict d)) 0. Proof. reflexivity. Qed.
 Theorem kind_of_list rec ip h w sp l : runG rec evalr ip h w (proc_functional sp (inr (VList l)) true) = DoneG h w (inl (ESeq (VList l))) 0. Proof. reflexivity. Qed.
@@ -52,11 +52,16 @@ Proof. cbn. destruct (py_nth s i); reflexivity. Qed.
 Theorem call_bytes rec ip h w sp s i : runG rec value ip h w (apply_body (ESeq (VBytes s)) sp [VInt i]) =
   match py_nth s i with Some c => DoneG h w (inl (VBytes [c])) 0 | None => DoneG h w (inr (mkerr c_range sp)) 0 end.
 Proof. cbn. destruct (py_nth s i); reflexivity. Qed.
+(* complex number: position 0 is the real part, position 1 the imaginary part, both as reals; any other position is the value error *)
+Theorem kind_of_complex rec ip h w sp re im : runG rec evalr ip h w (proc_functional sp (inr (VComplex re im)) true) = DoneG h w (inl (ESeq (VComplex re im))) 0. Proof. reflexivity. Qed.
+Theorem call_complex rec ip h w sp re im i : runG rec value ip h w (apply_body (ESeq (VComplex re im)) sp [VInt i]) =
+  if i =? 0 then DoneG h w (inl (VFloat re)) 0 else if i =? 1 then DoneG h w (inl (VFloat im)) 0 else DoneG h w (inr (mkerr c_value sp)) 0.
+Proof. cbn. destruct (i =? 0); [reflexivity|]. destruct (i =? 1); reflexivity. Qed.
 (* a sequence takes exactly one argument, and it must be an integer *)
 Theorem call_sequence_arity rec ip h w sp sq argv : length argv <> 1%nat -> runG rec value ip h w (apply_body (ESeq sq) sp argv) = DoneG h w (inr (mkerr c_value sp)) 0.
 Proof. intros L. destruct argv as [|x [|y r]]; try reflexivity. elim L; reflexivity. Qed.
 Theorem call_sequence_index_type rec ip h w sp sq a : isthunk a = false -> is_int a = false -> runG rec value ip h w (apply_body (ESeq sq) sp [a]) = DoneG h w (inr (mkerr c_type sp)) 0.
-Proof. intros T I. destruct a as [z|fl|b|s|s|l|dc|f|i|s l| |u]; try discriminate; reflexivity. Qed.
+Proof. intros T I. destruct a as [z|fl|b|s|s|l|dc|f|i|s l| |u|cr ci]; try discriminate; reflexivity. Qed.
 
 (* dictionary: exactly one argument; the value stored under the key equal (ㄴ) to the argument's key form, else the not-found error.
    The key form is computed by PKey (as_key: deep evaluation of the argument), a call into the evaluator: stated over `run`. *)
